@@ -553,6 +553,17 @@ pub fn gen_val(rng: &mut Rng, c: &ColDef, k: i64, img: i64) -> Val {
     if c.nullable && rng.chance(0.15) {
         return Val::Null;
     }
+    if c.name == "txt" {
+        // small-vocabulary documents (0..6 words), sometimes with punctuation and upper case
+        let n = rng.usize(7);
+        let mut words: Vec<String> = Vec::new();
+        for _ in 0..n {
+            let w = WORDS[rng.usize(WORDS.len())];
+            words.push(if rng.chance(0.15) { w.to_uppercase() } else { w.to_string() });
+        }
+        let sep = if rng.chance(0.2) { ", " } else { " " };
+        return Val::S(words.join(sep));
+    }
     match c.ty {
         Ty::I64 => Val::I(rng.range(-5, 40)),
         Ty::I32 => Val::I(rng.range(-3, 12)),
